@@ -516,6 +516,16 @@ def check_conversions(case, ctx: Ctx):
         require(type(h).__name__ == "Histogram2D" and tuple(h.shape) == (nx, ny), "geant_shape", f"{type(h).__name__} {h.shape}")
         require(np.array_equal(np.asarray(h.frequencies, dtype=float), grid[1:-1, 1:-1]), "geant_frequencies", "")
         require(np.array_equal(np.asarray(h.errors2, dtype=float), grid[1:-1, 1:-1] * 2), "geant_errors2", "")
+        for a_, (n_, lo_, hi_) in enumerate(((nx, g["lo"], g["hi"]), (ny, g["lo2"], g["hi2"]))):
+            e_ = [float(x) for x in h.numpy_bins[a_]]
+            w_ = (hi_ - lo_) / n_
+            require(len(e_) == n_ + 1, "geant_bin_count", f"axis {a_}: {len(e_) - 1} vs {n_}")
+            for i_, x_ in enumerate(e_):
+                require(abs(x_ - (lo_ + i_ * w_)) <= 1e-9 * max(abs(lo_), abs(hi_), w_), "geant_edges", f"axis {a_} edge {i_}: {x_!r} vs {lo_ + i_ * w_!r}")
+        # outer (under/overflow) rows and columns are what fell outside: together they are the missed count
+        outer = float(grid.sum() - grid[1:-1, 1:-1].sum())
+        ctx.label("geant2_outer_nonzero" if outer else "geant2_outer_zero")
+        require(float(h.missed) == outer, "geant_missed", f"missed {h.missed!r}, the under/overflow cells of the file hold {outer!r}")
         ctx.nt(nx != ny)
 
 
